@@ -26,6 +26,13 @@ ASSUMPTIONS = [
     "common type is an integer (u8 against a signed type promotes to float64 and is not generated)",
 ]
 
+TECHNIQUE = ("property-based testing (Hypothesis) against a dict model of matching (exact Python-int/float/str "
+             "equality): soundness, completeness, order by position in the second array; mixed integer dtypes, "
+             "10^3-10^5-element second arrays, memory layouts, repeated calls; one-index-per-value and "
+             "largest-flag model for unique/rem_dup")
+LEVEL_TEXT = ("Generated-input search against an independent dict model; shows the property on every generated pair "
+              "of arrays and every de-duplication input, never the absence of violations.")
+
 INT_TYPES = ["i1", "u1", "i2", "u2", "i4", "u4", "i8", "u8"]
 FLT_TYPES = ["f4", "f8"]
 STR_TYPES = ["S", "U"]
